@@ -212,6 +212,9 @@ class CEval:
         about those arrays / address-taken scalars is forgotten"""
         from .cnorm import PURE_CALLS, NO_EFFECT_CALLS, walk, callee_name
         for n in walk(s):
+            if n.get("kind") == "CallExpr" and callee_name(n) in ("memmove", "memcpy", "memset", "memcmp", "bcopy"):
+                # block operations of libc rewrite whole ranges of a buffer: outside the element-wise store model
+                raise Undecided(f"block operation {callee_name(n)}() is not modelled")
             if n.get("kind") == "CallExpr" and callee_name(n) not in PURE_CALLS and callee_name(n) not in NO_EFFECT_CALLS:
                 for a in n["inner"][1:]:
                     a2 = a
